@@ -424,6 +424,11 @@ func TestVerif_C45(t *testing.T) {
 				c.ToolError(err.Error())
 				return
 			}
+			if d.Spec == "" {
+				// large-ring slice violations carry their batches; the slice is cheap enough to re-enumerate
+				c45Large(c)
+				return
+			}
 			for _, g := range append(c45Configs(3), c45Configs(4)...) {
 				sp := c45Spec(g, 99, false)
 				if !strings.HasPrefix(d.Spec, "ring-"+g.String()+"-") {
